@@ -289,7 +289,7 @@ def _sized_counters(index, rep, f: Func, rule: str) -> None:
             def ev(e):
                 if isinstance(e, ast.Constant) and isinstance(e.value, int):
                     return e.value
-                t = src(e)
+                t = src(e) if isinstance(e, (ast.Attribute, ast.Subscript)) else ''
                 if t.endswith('.height') or t.endswith('.shape[0]') or t.endswith('as_tuple[0]'):
                     return H
                 if t.endswith('.width') or t.endswith('.shape[1]') or t.endswith('as_tuple[1]'):
